@@ -54,6 +54,9 @@ ADDRS = ("0", "0x1000", "top-8")
 BOUNDS = {
     "quick": {
         "sources": ["curated", "bitflip", "cube"],
+        # quick: the cube only for one byte order of each architecture (the decode tables are shared, the byte
+        # order only permutes the bytes fetched); curated vectors and bit flips for every target
+        "cube_targets": ["x86_16", "x86_32", "x86_64", "arml", "armtl", "aarch64l", "mips32b", "ppc32b", "msp430", "mepb"],
         "cube": {
             "fixed32": {"lo": 1, "hi": 0},
             "thumb": {"ext": 1},
@@ -65,6 +68,7 @@ BOUNDS = {
     },
     "thorough": {
         "sources": ["curated", "bitflip", "bytesub", "cube"],
+        "cube_targets": list(g.LIFT_TARGETS),
         "cube": {
             "fixed32": {"lo": 8, "hi": 4},
             "thumb": {"ext": 8},
@@ -83,14 +87,9 @@ _lenv = {}
 
 def _lift_env(name):
     if name not in _lenv:
-        import logging
-        for lg in ("x86_sem", "sem_x86", "archx86", "asmblock", "ir"):
-            logging.getLogger(lg).setLevel(logging.ERROR)
         t, mn = g.env(name)
         M = t.machine_obj()
-        # sem.py modules log "DEFAULT SLDT ADDRESS" warnings on stderr: silence all miasm loggers
-        for lname in list(logging.root.manager.loggerDict):
-            logging.getLogger(lname).setLevel(logging.CRITICAL)
+        g.quiet()       # sem.py modules log "DEFAULT SLDT ADDRESS" warnings on stderr
         cls = M.lifter_model_call or M.lifter
         allowed = set(mn.regs.all_regs_ids)
         ef = getattr(mn.regs, "exception_flags", None)
@@ -234,19 +233,18 @@ def judge(name, raw):
     counters = collections.Counter()
     vs = []
     done = set()
-    keep = None
-    for a in ADDRS:
+    keep = None         # (instr, decoded args): decode once; the lifters do not modify the instruction, only the
+    for a in ADDRS:     # engine's relabelling does (then the bytes are decoded afresh for the next address)
         if keep is not None:
             keep[0].args = list(keep[1])
-        outcome, kinds, cnt, instr = lift_once(name, raw, a, keep and keep[0])
-        if instr is not None and keep is None:
-            # decode once: the decoded arguments are restored before each further address unless the
-            # engine's relabelling replaced them (then the bytes are decoded afresh)
-            keep = None if cnt.get("relabelled") or any(k.startswith("prep_raised") for k in cnt) else None
-        if instr is not None and not cnt.get("relabelled") and not any(k.startswith("prep_raised") for k in cnt):
-            if keep is None:
-                keep = (instr, _ARGS0.get(id(instr)) or list(instr.args))
+            outcome, kinds, cnt, instr = lift_once(name, raw, a, keep[0])
         else:
+            instr = g.decode(name, raw)
+            args0 = list(instr.args) if instr is not None else None
+            outcome, kinds, cnt, instr = lift_once(name, raw, a, instr)
+            if instr is not None:
+                keep = (instr, args0)
+        if cnt.get("relabelled") or any(k.startswith("prep_raised") for k in cnt):
             keep = None
         counters[outcome] += 1
         counters.update(cnt)
@@ -299,6 +297,8 @@ def plan(tier, only=None):
             continue
         t = g.target(name)
         for kind in b["sources"]:
+            if kind == "cube" and name not in b["cube_targets"]:
+                continue
             dims = b["cube"][t.kind] if kind == "cube" else None
             shards += g.shards(name, kind, dims, b["shard"])
     return shards
@@ -307,6 +307,9 @@ def plan(tier, only=None):
 def run(ctx):
     tier = "quick" if ctx.quick else "thorough"
     shards = plan(tier)
+    for name in g.LIFT_TARGETS:          # import / warm every architecture before the pool forks
+        _lift_env(name)
+        judge(name, g.raw_of(name, "curated", g.curated(name)[0]))
     res = ctx.pmap(_shard, shards)
     return g.fold(ctx, res, BOUNDS[tier], extra_bounds={"addresses": list(ADDRS)},
                   nontrivial=lambda c: c.get("lifted", 0))
